@@ -14,6 +14,7 @@ import (
 
 	"github.com/gorilla/websocket"
 
+	"github.com/andydunstall/piko/pkg/auth"
 	"github.com/andydunstall/piko/server/cluster"
 	"github.com/andydunstall/piko/server/config"
 	"verifharness/internal/e4"
@@ -128,6 +129,12 @@ func (n *c09Node) sentinelCount() int64 {
 }
 
 func startC09Node(kc e4.KeyConfig) *c09Node {
+	return startC09NodeWith(kc, nil, e4.ValidFor(kc).Mint())
+}
+
+// startC09NodeWith: perPort, when set, replaces the same-auth-on-every-port
+// configuration; listenTok is the token the sentinel listener attaches with.
+func startC09NodeWith(kc e4.KeyConfig, perPort func(c *config.Config), listenTok string) *c09Node {
 	dir, err := os.MkdirTemp("", "verif-c09")
 	if err != nil {
 		evid.Fatal("tmp: %v", err)
@@ -135,12 +142,16 @@ func startC09Node(kc e4.KeyConfig) *c09Node {
 	jw := e4.WriteJWKS(dir)
 	ac := kc.AuthConfig(jw)
 	nd, err := e4.StartNode(nil, func(c *config.Config) {
+		if perPort != nil {
+			perPort(c)
+			return
+		}
 		c.Proxy.Auth, c.Upstream.Auth, c.Admin.Auth = ac, ac, ac
 	})
 	if err != nil {
 		evid.Fatal("start node %+v: %v", kc, err)
 	}
-	n := &c09Node{kc: kc, node: nd, dir: dir, valid: e4.ValidFor(kc).Mint()}
+	n := &c09Node{kc: kc, node: nd, dir: dir, valid: listenTok}
 	// a sentinel upstream behind the proxy port, attached with a valid token.
 	// If even that is refused (the property does not forbid over-rejection)
 	// the must-refuse probes are still meaningful, only without a sentinel.
@@ -364,6 +375,85 @@ func c09Config(run *evid.Run, kc e4.KeyConfig, full bool, mu *sync.Mutex, evals,
 	mu.Unlock()
 }
 
+// c09PerPort: the ports are configured independently: each port honours its
+// own key only (and a port's key opens no other port).
+func c09PerPort(run *evid.Run, mu *sync.Mutex, evals, nontrivial *int) {
+	secrets := map[string]string{"P": "proxy-port-secret-aaaaaaaaaaaaaaaaaaaaaa", "U": "upstream-port-secret-bbbbbbbbbbbbbbbbbbb", "A": "admin-port-secret-cccccccccccccccccccccc"}
+	type layout struct{ Proxy, Upstream, Admin string }
+	layouts := []layout{{"P", "U", "A"}, {"", "", "A"}, {"P", "", ""}, {"", "U", ""}, {"P", "P", "A"}, {"", "U", "A"}, {"P", "", "A"}}
+	tokFor := func(signer string) e4.TokenDesc {
+		d := e4.TokenDesc{Alg: "HS256", Key: "configured", Tamper: "none", Exp: "future", Nbf: "absent", Aud: "absent", Iss: "absent", Secret: secrets[signer]}
+		if signer == "empty" {
+			d.Secret, d.Key = "", "empty"
+		}
+		return d
+	}
+	for _, lay := range layouts {
+		name := fmt.Sprintf("per-port:proxy=%s,upstream=%s,admin=%s", lay.Proxy, lay.Upstream, lay.Admin)
+		kc := e4.KeyConfig{Name: name}
+		listenTok := ""
+		if lay.Upstream != "" {
+			listenTok = tokFor(lay.Upstream).Mint()
+		}
+		n := startC09NodeWith(kc, func(c *config.Config) {
+			for _, pa := range []struct {
+				a *auth.Config
+				k string
+			}{{&c.Proxy.Auth, lay.Proxy}, {&c.Upstream.Auth, lay.Upstream}, {&c.Admin.Auth, lay.Admin}} {
+				if pa.k != "" {
+					*pa.a = auth.Config{HMACSecretKey: secrets[pa.k]}
+				}
+			}
+		}, listenTok)
+		portKey := map[string]string{"proxy": lay.Proxy, "upstream": lay.Upstream, "admin": lay.Admin}
+		probes := []c09Probe{
+			{Port: "proxy", Method: "GET", Path: "/anything"},
+			{Port: "proxy", Method: "GET", Path: "/_piko/v1/tcp/e1"},
+			{Port: "upstream", Method: "GET", Path: "/piko/v1/upstream/e9"},
+			{Port: "admin", Method: "GET", Path: "/status/cluster/nodes"},
+			{Port: "admin", Method: "GET", Path: "/metrics"},
+			{Port: "admin", Method: "GET", Path: "/status/cluster/nodes?forward=ghost"},
+		}
+		for _, pr := range probes {
+			if portKey[pr.Port] == "" {
+				continue // no authentication on this port: nothing must be refused
+			}
+			for _, signer := range []string{"P", "U", "A", "empty", "absent"} {
+				d := tokFor(signer)
+				p := pr
+				p.Config, p.Token, p.Present = kc, d, "authorization"
+				hdr := map[string]string{"Authorization": "Bearer " + d.Mint()}
+				if signer == "absent" {
+					hdr = map[string]string{}
+					p.Present = "none"
+				}
+				expected := signer == portKey[pr.Port]
+				st, sen, err := n.probe(p, hdr)
+				mu.Lock()
+				*evals++
+				if !expected {
+					*nontrivial++
+				}
+				mu.Unlock()
+				desc := fmt.Sprintf("%s: %s %s on the %s port with a token signed by %q: status %d sentinel=%v err=%v", name, p.Method, p.Path, p.Port, signer, st, sen, err)
+				switch {
+				case err != nil:
+					run.Violation("C09", "request-failed", desc, map[string]any{"engine": "E4-C09", "probe": p})
+				case expected && st != 401:
+					mu.Lock()
+					c09Accepted++
+					mu.Unlock()
+				case !expected && st != 401:
+					run.Violation("C09", "route-ran-with-another-ports-key", desc, map[string]any{"engine": "E4-C09", "probe": p})
+				case !expected && sen:
+					run.Violation("C09", "upstream-reached-without-valid-token", desc, map[string]any{"engine": "E4-C09", "probe": p})
+				}
+			}
+		}
+		n.close()
+	}
+}
+
 func c09Configs(full bool) []e4.KeyConfig {
 	names := []string{"hmac", "rsa", "ecdsa", "jwks", "hmac+rsa", "hmac+rsa+ecdsa"}
 	var out []e4.KeyConfig
@@ -397,6 +487,7 @@ func init() {
 			}(kc)
 		}
 		wg.Wait()
+		c09PerPort(run, &mu, &evals, &nontrivial)
 		if c09Accepted == 0 {
 			evid.Fatal("vacuous: no probe at all was accepted (the plainly valid token is refused under every configuration: %v)", c09ValidRefused)
 		}
@@ -409,7 +500,7 @@ func init() {
 		run.Set("evaluations", evals)
 		run.Set("distinct_nontrivial", nontrivial)
 		run.Set("key_configurations", len(cfgs))
-		run.Set("rule", "per key configuration (real server.NewServer with the same auth on proxy, upstream and admin ports): (a) algorithm x signing key x tampering and the claims cross product (exp x nbf x aud x iss) on one main route per port, (b) 9 header presentations x {valid, wrong-key}, (c) every route registered on the live gin engines (+ an unregistered path) x one token per rejection class; non-trivial = probes that must be refused (401, sentinel upstream untouched)")
+		run.Set("rule", "per key configuration (real server.NewServer with the same auth on proxy, upstream and admin ports): (a) algorithm x signing key x tampering and the claims cross product (exp x nbf x aud x iss) on one main route per port, (b) 9 header presentations x {valid, wrong-key}, (c) every route registered on the live gin engines (+ an unregistered path) x one token per rejection class, (d) 7 layouts of independent per-port keys x main routes x token signed by {proxy key, upstream key, admin key, empty key, none}; non-trivial = probes that must be refused (401, sentinel upstream untouched)")
 		run.Set("exhaustive", true)
 		run.Assume("gin's trailing-slash redirect is not in the alphabet (a 301 from the router, no handler runs)")
 		fmt.Printf("  C09: configurations=%d probes=%d must-refuse=%d\n", len(cfgs), evals, nontrivial)
